@@ -145,6 +145,7 @@ pub fn dispatch(ctx: &mut Ctx, verb: &str, a: &[String]) -> Out {
             }
             Out::ok(J::from(x))
         }
+        "fault.batch" => crate::verbs_fault::fault_batch(ctx, a),
         "hash.batch" => hash_batch(ctx, a),
         "bf.batch" => bf_batch(ctx, a),
         "fiin.new" => fiin_new(ctx, a),
